@@ -29,6 +29,8 @@ enum Inject {
     Crash { at: u64, bounce_after: Option<u64> },
     BounceOnly { at: u64 },
     Cycles { at: u64, gap: u64, n: u32 },
+    /// crash t0 alone, then (gap steps later) crash every target by regex while t0 is already down
+    CrashOneThenAll { at: u64, gap: u64 },
 }
 
 #[derive(Clone, Debug)]
@@ -42,6 +44,9 @@ struct Scn {
     accept_gap_ms: u64,
     conn_times: Vec<(u64, u64)>, // (connect at ms, think time between ping-pongs)
     udp_period_ms: u64,
+    tcp_cap: usize,
+    /// a bulk download from t0 with a slow reader: (connect at ms, gap between reads ms)
+    bulk: Option<(u64, u64)>,
     inject: Inject,
 }
 
@@ -57,6 +62,7 @@ enum Ev {
     ConnErr { c: usize, kind: String },
     InRead { c: usize },
     Pong { c: usize },
+    BulkRead,
     Unblocked { c: usize, how: String },
     PingSent { id: u64, multicast: bool },
     PongRecv { id: u64 },
@@ -162,6 +168,11 @@ async fn target_program(log: Log<Ev>, t: usize, inc: u32, p: TProbe, s: Scn) -> 
             let _g = g;
             let mut b = [0u8; 8];
             while st.read_exact(&mut b).await.is_ok() {
+                if u64::from_le_bytes(b) == u64::MAX {
+                    // bulk download: write until the peer goes away (window-limited)
+                    while st.write_all(&[7u8; 64]).await.is_ok() {}
+                    break;
+                }
                 if st.write_all(&b).await.is_err() {
                     break;
                 }
@@ -171,7 +182,45 @@ async fn target_program(log: Log<Ev>, t: usize, inc: u32, p: TProbe, s: Scn) -> 
     }
 }
 
+const BULK: usize = 1000;
+
 async fn peer1_program(log: Log<Ev>, s: Scn) -> turmoil::Result {
+    if let Some((at, gap)) = s.bulk {
+        let log = log.clone();
+        tokio::task::spawn_local(async move {
+            tokio::time::sleep(Duration::from_millis(at)).await;
+            log.push(Ev::ConnCall { c: BULK });
+            let mut st = match TcpStream::connect(("t0", 7000)).await {
+                Ok(st) => {
+                    log.push(Ev::ConnOk { c: BULK, local: st.local_addr().map(|a| a.to_string()).unwrap_or_default() });
+                    st
+                }
+                Err(e) => {
+                    log.push(Ev::ConnErr { c: BULK, kind: format!("{:?}", e.kind()) });
+                    return;
+                }
+            };
+            if st.write_all(&u64::MAX.to_le_bytes()).await.is_err() {
+                log.push(Ev::Unblocked { c: BULK, how: "write".into() });
+                return;
+            }
+            let mut buf = [0u8; 64];
+            loop {
+                tokio::time::sleep(Duration::from_millis(gap)).await;
+                match st.read(&mut buf).await {
+                    Ok(0) => {
+                        log.push(Ev::Unblocked { c: BULK, how: "read:UnexpectedEof".into() });
+                        return;
+                    }
+                    Ok(_) => log.push(Ev::BulkRead),
+                    Err(e) => {
+                        log.push(Ev::Unblocked { c: BULK, how: format!("read:{:?}", e.kind()) });
+                        return;
+                    }
+                }
+            }
+        });
+    }
     for (c, (at, think)) in s.conn_times.iter().enumerate() {
         let log = log.clone();
         let (at, think) = (*at, *think);
@@ -332,6 +381,7 @@ fn execute(s: &Scn) -> Exec {
             .rng_seed(s.rng_seed)
             .min_message_latency(Duration::from_millis(s.lat_ms))
             .max_message_latency(Duration::from_millis(s.lat_ms))
+            .tcp_capacity(s.tcp_cap)
             .simulation_duration(Duration::from_secs(100_000));
         let mut sim = b.build();
         let nt = if s.two_targets { 2 } else { 1 };
@@ -373,33 +423,37 @@ fn execute(s: &Scn) -> Exec {
             running: (0..probes.len()).map(|t| sim.is_host_running(format!("t{t}"))).collect(),
             factory_calls: probes.iter().map(|p| p.factory_calls.get()).collect(),
         };
-        // plan: list of (after step k, action)
-        let mut plan: Vec<(u64, bool)> = vec![]; // (k, is_crash) else bounce
+        // plan: list of (after step k, action): 0 = crash all targets, 1 = bounce all, 2 = crash t0 only
+        let mut plan: Vec<(u64, u8)> = vec![];
         match &s.inject {
             Inject::None => {}
             Inject::Crash { at, bounce_after } => {
-                plan.push((*at, true));
+                plan.push((*at, 0));
                 if let Some(d) = bounce_after {
-                    plan.push((at + d, false));
+                    plan.push((at + d, 1));
                 }
             }
-            Inject::BounceOnly { at } => plan.push((*at, false)),
+            Inject::BounceOnly { at } => plan.push((*at, 1)),
             Inject::Cycles { at, gap, n } => {
                 let mut k = *at;
                 for _ in 0..*n {
-                    plan.push((k, true));
-                    plan.push((k + gap, false));
+                    plan.push((k, 0));
+                    plan.push((k + gap, 1));
                     k += 2 * gap + 1;
                 }
+            }
+            Inject::CrashOneThenAll { at, gap } => {
+                plan.push((*at, 2));
+                plan.push((at + gap, 0));
             }
         }
         let targets: Vec<usize> = (0..nt).collect();
         let mut panic = None;
         for k in 0..=s.steps {
-            for (at, is_crash) in &plan {
+            for (at, act) in &plan {
                 if *at == k {
-                    let r = std::panic::catch_unwind(std::panic::AssertUnwindSafe(|| {
-                        if *is_crash {
+                    let r = std::panic::catch_unwind(std::panic::AssertUnwindSafe(|| match act {
+                        0 => {
                             log.push(Ev::Crash { targets: targets.clone() });
                             if s.two_targets {
                                 sim.crash(regex::Regex::new("^t[01]$").unwrap());
@@ -407,7 +461,13 @@ fn execute(s: &Scn) -> Exec {
                                 sim.crash("t0");
                             }
                             log.push(Ev::CrashReturned);
-                        } else {
+                        }
+                        2 => {
+                            log.push(Ev::Crash { targets: vec![0] });
+                            sim.crash("t0");
+                            log.push(Ev::CrashReturned);
+                        }
+                        _ => {
                             log.push(Ev::Bounce { targets: targets.clone() });
                             if s.two_targets {
                                 sim.bounce(regex::Regex::new("^t[01]$").unwrap());
@@ -420,13 +480,13 @@ fn execute(s: &Scn) -> Exec {
                     if let Err(p) = r {
                         panic = Some(vcore::take_last_panic().unwrap_or(vcore::panic_message(&*p)));
                     }
-                    ctl.push(sample(&mut sim, if *is_crash { "after-crash" } else { "after-bounce" }, &probes));
+                    ctl.push(sample(&mut sim, match act { 0 => "after-crash", 2 => "after-crash-t0", _ => "after-bounce" }, &probes));
                 }
             }
             if k == s.steps || panic.is_some() {
                 break;
             }
-            // sample before each step while a target is down (no execution while down)
+            // sample before each step while every target is down (no execution while down)
             if ctl.last().map(|c| c.what == "after-crash" || c.what == "down").unwrap_or(false) {
                 ctl.push(sample(&mut sim, "down", &probes));
             }
@@ -460,6 +520,7 @@ fn check(s: &Scn, ex: &Exec, twin_iso: &[String], base_steps: u64, out: &mut Sce
         Inject::Crash { .. } => "crash-bounce",
         Inject::BounceOnly { .. } => "bounce-only",
         Inject::Cycles { .. } => "cycles",
+        Inject::CrashOneThenAll { .. } => "crash-one-then-regex",
     };
     if let Some(p) = &ex.panic {
         out.violate("panic", format!("C04|panic|{kind}"), format!("simulation panicked / failed: {p}"), desc.clone());
@@ -471,14 +532,24 @@ fn check(s: &Scn, ex: &Exec, twin_iso: &[String], base_steps: u64, out: &mut Sce
     let mut prev: Option<&CtlSample> = None;
     for c in &ex.ctl {
         match c.what {
-            "after-crash" => {
+            "after-crash" | "after-crash-t0" => {
                 out.count("crash_points", 1);
+                let only_t0 = c.what == "after-crash-t0";
+                if !only_t0 && prev.map(|p| p.what == "after-crash-t0").unwrap_or(false) {
+                    out.count("regex_crash_with_one_target_already_down", 1);
+                }
                 for (t, g) in c.guards.iter().enumerate() {
+                    if only_t0 && t != 0 {
+                        continue;
+                    }
                     if g.iter().any(|x| *x != 0) {
                         out.violate("destructors-not-run", format!("C04|destructors-not-run|{kind}"), format!("after crash (step {}) host t{t} still has live task guards per incarnation {g:?}", c.step), desc.clone());
                     }
                 }
                 for (t, n) in c.counts.iter().enumerate() {
+                    if only_t0 && t != 0 {
+                        continue;
+                    }
                     if *n != (0, 0, 0, 0) {
                         out.violate(
                             "resources-not-released",
@@ -489,6 +560,9 @@ fn check(s: &Scn, ex: &Exec, twin_iso: &[String], base_steps: u64, out: &mut Sce
                     }
                 }
                 for (t, r) in c.running.iter().enumerate() {
+                    if only_t0 && t != 0 {
+                        continue;
+                    }
                     if *r {
                         out.violate("still-running", format!("C04|still-running|{kind}"), format!("is_host_running(t{t}) is true right after crash"), desc.clone());
                     }
@@ -543,13 +617,39 @@ fn check(s: &Scn, ex: &Exec, twin_iso: &[String], base_steps: u64, out: &mut Sce
             _ => {}
         }
     }
-    // no Send from a crashed host
+    // no Send from a crashed host (per target: a crash of t0 alone leaves t1 running)
+    let mut down_since: BTreeMap<usize, u64> = BTreeMap::new(); // target -> seq of the crash return
+    let mut pending_targets: Vec<usize> = vec![];
+    let mut windows: Vec<(usize, u64, u64, Option<u64>)> = vec![]; // (target, crash seq, crash step, bounce seq)
+    for (q, st, e) in &ex.evs {
+        match e {
+            Ev::Crash { targets } => pending_targets = targets.clone(),
+            Ev::CrashReturned => {
+                for t in &pending_targets {
+                    if !down_since.contains_key(t) {
+                        down_since.insert(*t, *q);
+                        windows.push((*t, *q, *st, None));
+                    }
+                }
+            }
+            Ev::Bounce { targets } => {
+                for t in targets {
+                    if down_since.remove(t).is_some() {
+                        if let Some(w) = windows.iter_mut().rev().find(|w| w.0 == *t && w.3.is_none()) {
+                            w.3 = Some(*q);
+                        }
+                    }
+                }
+            }
+            _ => {}
+        }
+    }
     for t in &ex.trace {
         if t.msg == "Send" {
-            for (cq, cst, b) in &downs {
-                let in_window = t.seq > *cq && b.map(|x| t.seq < x.0).unwrap_or(true);
-                if in_window && ex.t_ips.iter().any(|ip| t.src.starts_with(&format!("{ip}:"))) {
-                    out.violate("sends-while-down", format!("C04|sends-while-down|{kind}"), format!("host with address {} sent {} to {} in step {} although it was crashed after step {cst}", t.src, t.protocol, t.dst, t.step), desc.clone());
+            for (tg, cq, cst, b) in &windows {
+                let in_window = t.seq > *cq && b.map(|x| t.seq < x).unwrap_or(true);
+                if in_window && t.src.starts_with(&format!("{}:", ex.t_ips[*tg])) {
+                    out.violate("sends-while-down", format!("C04|sends-while-down|{kind}"), format!("host t{tg} ({}) sent {} to {} in step {} although it was crashed after step {cst}", t.src, t.protocol, t.dst, t.step), desc.clone());
                 }
             }
         }
@@ -593,6 +693,9 @@ fn check(s: &Scn, ex: &Exec, twin_iso: &[String], base_steps: u64, out: &mut Sce
         let after: Vec<&(u64, u64, Ev)> = ex.evs.iter().filter(|(q, _, _)| *q > cq).collect();
         let think_max = s.conn_times.iter().map(|x| x.1).max().unwrap_or(0);
         for (c, (st, q)) in &state {
+            if *c == BULK {
+                continue; // judged separately (needs time to drain)
+            }
             out.saw("stream_states_at_crash", st.to_string());
             let unb = after.iter().find_map(|(_, stp, e)| match e {
                 Ev::Unblocked { c: cc, how } if cc == c => Some((*stp, how.clone())),
@@ -611,7 +714,7 @@ fn check(s: &Scn, ex: &Exec, twin_iso: &[String], base_steps: u64, out: &mut Sce
                         Ev::Unblocked { c: cc, .. } if cc == c => Some(u64::MAX),
                         _ => None,
                     });
-                    let think = s.conn_times[*c].1;
+                    let think = s.conn_times.get(*c).map(|x| x.1).unwrap_or(0);
                     match &unb {
                         Some((stp, how)) if *stp <= bound && (how.contains("UnexpectedEof") || how.contains("ConnectionReset") || how.contains("BrokenPipe")) => out.count("peers_unblocked_promptly", 1),
                         Some((stp, _)) if pong.map(|p| p <= bound && *stp <= p + (think + 2 * s.lat_ms) / s.tick_ms + 4).unwrap_or(false) => out.count("peers_served_in_flight_echo_then_unblocked", 1),
@@ -661,6 +764,32 @@ fn check(s: &Scn, ex: &Exec, twin_iso: &[String], base_steps: u64, out: &mut Sce
                     }
                 }
                 _ => {}
+            }
+        }
+    }
+    // a window-limited bulk download must still end (EOF / reset) once the reader has drained
+    if let (Some((cq, cstep, _)), Some((_, gap))) = (first_down, s.bulk) {
+        let established = ex.evs.iter().any(|(q, _, e)| *q < cq && matches!(e, Ev::ConnOk { c, .. } if *c == BULK));
+        let ended_before = ex.evs.iter().any(|(q, _, e)| *q < cq && matches!(e, Ev::Unblocked { c, .. } if *c == BULK));
+        if established && !ended_before {
+            out.count("bulk_streams_open_at_crash", 1);
+            let bound = cstep + (s.tcp_cap as u64 + 3) * (gap / s.tick_ms + 1) + lat_steps + 4;
+            let unb = ex.evs.iter().find_map(|(q, st, e)| match e {
+                Ev::Unblocked { c, how } if *c == BULK && *q > cq => Some((*st, how.clone())),
+                _ => None,
+            });
+            match unb {
+                Some((st, _)) if st <= bound => out.count("bulk_streams_ended_after_crash", 1),
+                other => {
+                    if s.steps > bound {
+                        out.violate(
+                            "peer-not-unblocked",
+                            format!("C04|peer-not-unblocked|bulk|{kind}"),
+                            format!("bulk reader (tcp_capacity {}, {} ms between reads) was mid-transfer when t0 crashed after step {cstep}; expected EOF/reset by step {bound} after draining, observed {other:?}", s.tcp_cap, gap),
+                            desc.clone(),
+                        )
+                    }
+                }
             }
         }
     }
@@ -757,6 +886,8 @@ fn base(seed: u64) -> Scn {
         accept_gap_ms: r.pick_copy(&[0u64, 3, 9]),
         conn_times,
         udp_period_ms: r.pick_copy(&[1u64, 2, 3]),
+        tcp_cap: r.pick_copy(&[8usize, 12, 64]), // > number of concurrent connectors (pending SYNs >= capacity is a documented panic)
+        bulk: if r.chance(0.6) { Some((r.range(2, 20), r.pick_copy(&[1u64, 3, 6]))) } else { None },
         inject: Inject::None,
     }
 }
@@ -767,12 +898,13 @@ fn workload_scenarios(s0: &Scn, r: &mut Rng, all_points: bool) -> Vec<Scn> {
     let points: Vec<u64> = if all_points { (1..=n).collect() } else { (1..=n).filter(|_| r.chance(0.45)).collect() };
     for c in points {
         let mut s = s0.clone();
-        s.inject = match r.below(6) {
+        s.inject = match r.below(7) {
             0 => Inject::Crash { at: c, bounce_after: None },
             1 => Inject::Crash { at: c, bounce_after: Some(0) },
             2 => Inject::Crash { at: c, bounce_after: Some(1) },
             3 => Inject::Crash { at: c, bounce_after: Some(r.range(2, 6)) },
             4 => Inject::BounceOnly { at: c },
+            5 if s0.two_targets => Inject::CrashOneThenAll { at: c, gap: r.range(0, 4) },
             _ => Inject::Cycles { at: c, gap: r.range(0, 3), n: 2 },
         };
         if let Inject::Cycles { .. } = s.inject {
@@ -876,6 +1008,6 @@ fn fin() -> Finish<'static> {
             "prompt = latency + 2 steps for parked readers, 2 steps for queued connectors".into(),
         ],
         min_distinct: 10,
-        required_counters: vec!["crash_points", "bounces", "peers_parked_in_read_at_crash", "peers_unblocked_promptly", "queued_connectors_refused", "handshakes_in_flight_at_crash", "stale_syns_refused", "datagrams_reaching_down_host", "rebinds_after_bounce", "down_step_observations", "isolated_pair_events_compared", "regex_multi_host_workloads"],
+        required_counters: vec!["crash_points", "bounces", "peers_parked_in_read_at_crash", "peers_unblocked_promptly", "queued_connectors_refused", "handshakes_in_flight_at_crash", "stale_syns_refused", "datagrams_reaching_down_host", "rebinds_after_bounce", "down_step_observations", "isolated_pair_events_compared", "regex_multi_host_workloads", "regex_crash_with_one_target_already_down", "bulk_streams_ended_after_crash"],
     }
 }
